@@ -14,6 +14,15 @@ CHECKS = {
  "C01": dict(engine="E1-world", category="exploration", technique="stateful property-based testing (proptest plans of member actions and deliveries) against a reference replica that walks the MIP-03 chain",
    text="Generated histories of member actions and per-member delivery schedules (causal and unrestricted, duplicates, both own-commit modes, both backends, retention 1..6) are executed on the real crates; after re-offering everything to a fixed point every member that is in the selected final roster must have exactly the reference replica's group state, must never have rolled back away from a selected state, and a member that stalls must sit exactly on a selected state for a reason listed in known_findings.json. Search, not proof.",
    note="Trusted: the harness's reference replica (an extra silent member of the real library) as the definition of the MIP-03 selection; bounded group size, plan length and fork depth; random event ids decide timestamp ties.", ref="DESIGN.md §4 C01"),
+ "C02": dict(engine="E1-world", category="exploration", technique="stateful property-based testing; per (message, receiver) oracle against the sender's rumor and the reference chain",
+   text="C01-style generated histories enriched with application messages; after quiescence every message created in a selected state must be held exactly once, field-for-field equal to the sender's rumor and in state processed, by every converged client that was a member in that state; messages created on a losing branch must be absent or invalidated at converged clients. Search, not proof.",
+   note="Only clients agreeing with the reference's final state are judged; deliveries beyond max_past_epochs are don't-care; excuses are limited to the signatures in known_findings.json (O2, O4, O23).", ref="DESIGN.md §4 C02"),
+ "C07": dict(engine="E1-world", category="exploration", technique="stateful property-based testing; metamorphic relation: re-delivery = identity on the full client fingerprint",
+   text="Generated histories with explicit re-deliveries (and the re-offering of all events at quiescence): whenever an event whose earlier hand-over took effect at a client is handed over again, the client's full fingerprint (group state, pending proposals/commit, every stored message and its state, last-message pointer) must be identical before and after. Search, not proof.",
+   note="'took effect' = an earlier hand-over returned an application message, commit, pending proposal or auto-commit; internal dedup records are not observable and not compared.", ref="DESIGN.md §4 C07"),
+ "C08": dict(engine="E1-world", category="exploration", technique="stateful property-based testing with an invariant checked after every API call",
+   text="Generated histories rich in group-data updates, id rotations, merges/clears, races, rollbacks and restarts; after every API call the acting client's stored record (epoch, name, description, admins, image fields, Nostr group id) and relay set must equal what its MLS state says; all clients are swept at the end. Search, not proof.",
+   note="Only Active groups; routing of events under the id currently in force is exercised by the same histories (messages and commits after rotations must be processed), cross-group routing is not yet generated.", ref="DESIGN.md §4 C08"),
 }
 
 checks = []
@@ -44,7 +53,7 @@ manifest = {
         "add_only": True,
     },
     "engines": [
-        {"name": "E1-world", "path": "/verif/harness/src/world.rs", "serves_properties": ["C01"], "kind_free_text": "simulated clients + relay + delivery scheduler over the real crates; proptest plans; reference replica"},
+        {"name": "E1-world", "path": "/verif/harness/src/world.rs", "serves_properties": ["C01", "C02", "C07", "C08"], "kind_free_text": "simulated clients + relay + delivery scheduler over the real crates; proptest plans; reference replica"},
     ],
     "checks": checks,
     "notes": "exit 0 held / 1 violation (VIOLATION line) / 2 inconclusive or infrastructure. Known findings: /verif/known_findings.json (witness plans are re-run on every check and printed as KNOWN-FINDING lines).",
